@@ -56,6 +56,7 @@ func (EpochsEngine) Generate(r *simcore.RNG, tier string, idx int) *simcore.Plan
 		p.Config["err"] = r.Range(0, 250)
 		p.Config["panic"] = r.Range(0, 250)
 		p.Config["oog"] = r.Range(0, 60)
+		p.Config["finite"] = int64(r.Intn(2)) // the block context carries a finite gas meter
 	}
 	nt := int(r.Range(1, 4))
 	for i := 0; i < nt; i++ {
@@ -110,6 +111,7 @@ type epochsWorld struct {
 	key     *storetypes.KVStoreKey
 	salt    uint64
 	rates   [3]int64 // err, panic, oog permille
+	finite  bool     // the block context carries a finite gas meter
 	log     []signal // signals delivered in the current block (harness-side observation)
 	outcome map[string]string
 	height  int64
@@ -143,7 +145,8 @@ func (s simSub) handle(ctx sdk.Context, id string, n int64, start bool) error {
 		kind = "start"
 	}
 	w.outcome[fmt.Sprintf("%d/%s/%s/%d", s.idx, id, kind, n)] = out
-	if out == "oog" && pre%2 == 0 {
+	burnCallersMeter := out == "oog" && w.finite && pre%4 == 0
+	if out == "oog" && pre%2 == 0 && !burnCallersMeter {
 		// a finite gas meter: the gas-metered store itself raises the out-of-gas panic
 		ctx = ctx.WithGasMeter(storetypes.NewGasMeter(uint64(1000 + 700*pre)))
 	}
@@ -178,6 +181,15 @@ func (s simSub) handle(ctx sdk.Context, id string, n int64, start bool) error {
 		}
 		panic(fmt.Sprintf("subscriber %d panics on purpose", s.idx))
 	case "oog":
+		if burnCallersMeter {
+			// use up the finite gas meter the CALLER put on the context (the block's): ordinary metered writes,
+			// nothing is raised by hand. Bounded, so that a wrapper that hides the caller's meter shows up as a
+			// subscriber that "succeeds" instead of hanging the simulation.
+			for i := 0; i < 40000; i++ {
+				st.Set(subKey(s.idx, fmt.Sprintf("burn/%d", i)), make([]byte, 64))
+			}
+			return nil
+		}
 		if pre%2 == 0 {
 			for i := 0; ; i++ { // burn the finite meter
 				st.Set(subKey(s.idx, fmt.Sprintf("burn/%d", i)), make([]byte, 64))
@@ -217,7 +229,7 @@ func (EpochsEngine) Execute(run *simcore.Run) {
 	if err := cms.LoadLatestVersion(); err != nil {
 		panic(err)
 	}
-	w := &epochsWorld{run: run, key: sk, salt: uint64(p.Cfg("salt", 1)), rates: [3]int64{p.Cfg("err", 0), p.Cfg("panic", 0), p.Cfg("oog", 0)}, outcome: map[string]string{}}
+	w := &epochsWorld{run: run, key: sk, salt: uint64(p.Cfg("salt", 1)), rates: [3]int64{p.Cfg("err", 0), p.Cfg("panic", 0), p.Cfg("oog", 0)}, outcome: map[string]string{}, finite: p.Cfg("finite", 0) == 1}
 	k := epochskeeper.NewKeeper(ek)
 	var hooks []epochstypes.EpochHooks
 	for i := 0; i < nSubs; i++ {
@@ -234,7 +246,12 @@ func (EpochsEngine) Execute(run *simcore.Run) {
 
 	newCtx := func(ms storetypes.MultiStore) sdk.Context {
 		return sdk.NewContext(ms, tmproto.Header{Height: height, Time: now}, false, log.NewNopLogger()).
-			WithBlockGasMeter(storetypes.NewInfiniteGasMeter()).WithGasMeter(storetypes.NewInfiniteGasMeter())
+			WithBlockGasMeter(storetypes.NewInfiniteGasMeter()).WithGasMeter(func() storetypes.GasMeter {
+			if w.finite {
+				return storetypes.NewGasMeter(60_000_000) // far more than honest subscribers use, far less than the burner's 40000 writes
+			}
+			return storetypes.NewInfiniteGasMeter()
+		}())
 	}
 
 	for i, st := range p.Steps {
